@@ -20,7 +20,7 @@ EXPLANATION = ('flow-sensitive event-ordering analysis on the CFG of every libra
                'fact base decide whether a user-visible throw can follow a write to the target or the consumption of an rvalue argument')
 
 USER_ERRORS = ('ST::unicode_error', 'ST::codec_error', 'ST::bad_format', 'std::out_of_range')
-TARGET_CLASS_RE = re.compile(r'^ST::(string|string_stream|buffer<[^>]*>)$')
+TARGET_CLASS_RE = re.compile(r'^ST::(string|string_stream|buffer<[^>]*>|float_formatter<[^>]*>|uint_formatter<[^>]*>)$')
 TARGET_REF_RE = re.compile(r'^(ST::(string|string_stream|buffer<[^>]*>)|std::(__cxx11::)?basic_string<.*>)\s*&$')
 RVALUE_RE = re.compile(r'^(ST::(string|string_stream|buffer<[^>]*>)|std::(__cxx11::)?basic_string<.*>)\s*&&$')
 
